@@ -244,6 +244,12 @@ func (vc *VC) arrayBlit(st *State, es, base, dOff, src, sOff, n string) string {
 	a := vc.fresh("blit", "(Array Int "+es+")")
 	vc.assume(st, fmt.Sprintf("(forall ((k Int)) (! (= (select %s k) (ite (and (<= %s k) (< k (+ %s %s))) (select %s (+ (- k %s) %s)) (select %s k))) :pattern ((select %s k))))",
 		a, dOff, dOff, n, src, dOff, sOff, base, a))
+	vc.sumFacts(st, es, func(ps func(a, n string) string, f string) []string {
+		return []string{
+			fmt.Sprintf("(=> (>= %s 0) (= %s %s))", dOff, ps(a, dOff), ps(base, dOff)),
+			fmt.Sprintf("(=> (and (>= %s 0) (>= %s 0) (>= %s 0)) (= %s (+ %s (- %s %s))))", dOff, n, sOff, ps(a, fmt.Sprintf("(+ %s %s)", dOff, n)), ps(a, dOff), ps(src, fmt.Sprintf("(+ %s %s)", sOff, n)), ps(src, sOff)),
+		}
+	})
 	return a
 }
 
@@ -272,10 +278,22 @@ func (vc *VC) evalAppend(st *State, c *ast.CallExpr) Val {
 	}
 	narr := arr
 	n := 0
+	var appended []string
 	for _, a := range c.Args[1:] {
 		v := vc.evalConv(st, a, st2.Elem())
 		narr = fmt.Sprintf("(store %s (+ %s %d) %s)", narr, ln, n, v.S)
+		appended = append(appended, v.S)
 		n++
+	}
+	if n > 0 {
+		narr = vc.define("app", "(Array Int "+es+")", narr)
+		vc.sumFacts(st, es, func(ps func(a, n string) string, f string) []string {
+			tot := ps(arr, ln)
+			for _, v := range appended {
+				tot = fmt.Sprintf("(+ %s (uf_%s %s))", tot, f, v)
+			}
+			return []string{fmt.Sprintf("(= %s %s)", ps(narr, fmt.Sprintf("(+ %s %d)", ln, n)), tot), fmt.Sprintf("(= %s %s)", ps(narr, ln), ps(arr, ln))}
+		})
 	}
 	return Val{S: fmt.Sprintf("(mk_%s %s (+ %s %d) %s)", base.Sort, narr, ln, n, norg), Ty: t, Sort: base.Sort}
 }
@@ -542,6 +560,34 @@ func (vc *VC) callStaticVals(st *State, o *types.Func, recv *Val, args []ast.Exp
 	if og := o.Origin(); og != nil {
 		o = og
 	}
+	vc.pendingTargs = nil
+	if c != nil {
+		var id *ast.Ident
+		fun := c.Fun
+		if ix, ok := fun.(*ast.IndexExpr); ok {
+			fun = ix.X
+		}
+		if ixl, ok := fun.(*ast.IndexListExpr); ok {
+			fun = ixl.X
+		}
+		switch f := fun.(type) {
+		case *ast.Ident:
+			id = f
+		case *ast.SelectorExpr:
+			id = f.Sel
+		}
+		if id != nil {
+			if inst, ok := vc.eng.info.Instances[id]; ok && inst.TypeArgs != nil {
+				if sig, ok := o.Type().(*types.Signature); ok && sig.TypeParams() != nil {
+					m := map[*types.TypeParam]types.Type{}
+					for i := 0; i < sig.TypeParams().Len() && i < inst.TypeArgs.Len(); i++ {
+						m[sig.TypeParams().At(i)] = vc.subst(inst.TypeArgs.At(i))
+					}
+					vc.pendingTargs = m
+				}
+			}
+		}
+	}
 	sig := o.Type().(*types.Signature)
 	vc.outParams = nil
 	argv := vc.evalArgs(st, sig, args, c)
@@ -731,11 +777,16 @@ func (vc *VC) inlineCall(st *State, fi *FuncInfo, recv *Val, argv []Val, c *ast.
 	for i := 0; i < sig.Results().Len(); i++ {
 		r := sig.Results().At(i)
 		if r.Name() != "" && r.Name() != "_" {
-			nl[r] = vc.eng.sorts.zero(r.Type())
+			rt := r.Type()
+			if vc.pendingTargs != nil {
+				rt = substType(rt, vc.pendingTargs)
+			}
+			nl[r] = vc.eng.sorts.zero(rt)
 		}
 	}
 	st.locals = nl
-	fr := &frame{fn: fi, inline: true}
+	fr := &frame{fn: fi, inline: true, targs: vc.pendingTargs}
+	vc.pendingTargs = nil
 	vc.frames = append(vc.frames, fr)
 	work := st.clone()
 	work.guards = nil
